@@ -1,7 +1,11 @@
 /* setparam — drives the REAL svt_av1_enc_init_handle / svt_av1_enc_set_parameter (same line protocol as `svtmodel config`).
  *   CASE <dirty> name=value name[i]=value ...  -> accept=<0|1> code=<hex>
+ *        (pred_struct[i].m is written pred_struct_m[i]; pred_struct[i].ref_listX[j] is pred_struct_ref_listX[i*4+j])
  *        caller memory is memset to <dirty>, svt_av1_enc_init_handle fills in the defaults, overrides are applied,
  *        svt_av1_enc_set_parameter is called on the fresh handle.
+ *        If the library dies inside the call (SIGSEGV/SIGFPE/SIGBUS/SIGILL/SIGABRT) the line is `accept=- crash=<signal>`; if it dies
+ *        while the handle is torn down afterwards the line is `accept=<0|1> code=<hex> crash=<signal>`.  In both cases the harness
+ *        exits with status 3 after that line (its heap can no longer be trusted); the caller restarts it with the remaining cases.
  *   CASE2 <dirty> <overrides A> ; <overrides B>  -> accept=<a> accept2=<b>   (two set_parameter calls on ONE handle, 10 s watchdog)
  *   DUMP <dirty>                                -> `name value` per member after svt_av1_enc_init_handle, then END
  */
@@ -10,6 +14,7 @@
 #include <string.h>
 #include <unistd.h>
 #include <signal.h>
+#include <setjmp.h>
 #include "EbSvtAv1Enc.h"
 #include "cfg_fields.h"
 
@@ -26,6 +31,14 @@ static int set_cfg_field(EbSvtAv1EncConfiguration *c, const char *name, long lon
           CFG_ARRAYS(X)
 #undef X
       } }
+    /* elements of pred_struct[] by flattened name: pred_struct_<member>[i], list members pred_struct_<member>[i*REF_LIST_MAX_DEPTH+j] */
+    { char base[128]; int idx; const int n = (int)(sizeof(c->pred_struct) / sizeof(c->pred_struct[0]));
+      if (sscanf(name, "%127[^[][%d]", base, &idx) == 2 && idx >= 0) {
+          if (!strcmp(base, "pred_struct_temporal_layer_index") && idx < n) { c->pred_struct[idx].temporal_layer_index = (uint32_t)v; return 1; }
+          if (!strcmp(base, "pred_struct_decode_order") && idx < n) { c->pred_struct[idx].decode_order = (uint32_t)v; return 1; }
+          if (!strcmp(base, "pred_struct_ref_list0") && idx < n * REF_LIST_MAX_DEPTH) { c->pred_struct[idx / REF_LIST_MAX_DEPTH].ref_list0[idx % REF_LIST_MAX_DEPTH] = (int32_t)v; return 1; }
+          if (!strcmp(base, "pred_struct_ref_list1") && idx < n * REF_LIST_MAX_DEPTH) { c->pred_struct[idx / REF_LIST_MAX_DEPTH].ref_list1[idx % REF_LIST_MAX_DEPTH] = (int32_t)v; return 1; }
+      } }
     if (!strcmp(name, "rc_twopass_stats_in_sz")) { c->rc_twopass_stats_in.sz = (uint64_t)v; return 1; }
     if (!strcmp(name, "rc_twopass_stats_in_buf")) { c->rc_twopass_stats_in.buf = (void *)(intptr_t)v; return 1; }
     return 0;
@@ -39,6 +52,9 @@ static void dump_cfg(const EbSvtAv1EncConfiguration *c) {
 #undef X
     printf("rc_twopass_stats_in_buf %lld\nrc_twopass_stats_in_sz %lld\n", (long long)(intptr_t)c->rc_twopass_stats_in.buf, (long long)c->rc_twopass_stats_in.sz);
 }
+static sigjmp_buf crash_env;
+static volatile sig_atomic_t crash_armed = 0, crash_phase = 0;
+static void on_crash(int s) { if (crash_armed) siglongjmp(crash_env, s); signal(s, SIG_DFL); raise(s); }
 static void on_alarm(int s) { (void)s; static const char m[] = "BLOCKED\n"; if (write(1, m, sizeof(m) - 1)) {} _exit(3); }
 static int apply(EbSvtAv1EncConfiguration *cfg, char *toks) {
     for (char *t = strtok(toks, " \t\n"); t; t = strtok(NULL, " \t\n")) {
@@ -52,6 +68,8 @@ int main(void) {
     static EbSvtAv1EncConfiguration cfg;
     /* library log goes to stderr by default; keep stdout canonical */
     signal(SIGALRM, on_alarm);
+    { struct sigaction sa; memset(&sa, 0, sizeof(sa)); sa.sa_handler = on_crash; sa.sa_flags = SA_NODEFER;
+      sigaction(SIGSEGV, &sa, NULL); sigaction(SIGFPE, &sa, NULL); sigaction(SIGBUS, &sa, NULL); sigaction(SIGILL, &sa, NULL); sigaction(SIGABRT, &sa, NULL); }
     while (fgets(line, sizeof(line), stdin)) {
         int dirty; int off = 0; char cmd[16];
         if (sscanf(line, "%15s %d %n", cmd, &dirty, &off) < 2) { printf("bad-op\n"); continue; }
@@ -61,8 +79,25 @@ int main(void) {
         if (!strcmp(cmd, "DUMP")) { dump_cfg(&cfg); printf("END\n"); svt_av1_enc_deinit_handle(h); fflush(stdout); continue; }
         if (!strcmp(cmd, "CASE")) {
             if (!apply(&cfg, line + off)) { printf("bad-op\n"); svt_av1_enc_deinit_handle(h); continue; }
-            EbErrorType e = svt_av1_enc_set_parameter(h, &cfg);
-            printf("accept=%d code=%x\n", e == EB_ErrorNone, (unsigned)e);
+            crash_armed = 1; crash_phase = 0;
+            int sig = sigsetjmp(crash_env, 1);
+            if (sig == 0) {
+                EbErrorType e = svt_av1_enc_set_parameter(h, &cfg);
+                printf("accept=%d code=%x", e == EB_ErrorNone, (unsigned)e);
+                fflush(stdout);
+                crash_phase = 1;
+                svt_av1_enc_deinit_handle(h);
+                crash_armed = 0;
+                printf("\n");
+                fflush(stdout);
+                continue;
+            }
+            /* the library died: inside set_parameter (no verdict) or while the handle was torn down (verdict already printed).
+               The process state is no longer trustworthy: report and stop; the caller restarts the harness with the remaining cases. */
+            crash_armed = 0;
+            printf(crash_phase ? " crash=%d\n" : "accept=- crash=%d\n", sig);
+            fflush(stdout);
+            _exit(3);
         } else if (!strcmp(cmd, "CASE2")) {
             char *semi = strchr(line + off, ';');
             if (!semi) { printf("bad-op\n"); svt_av1_enc_deinit_handle(h); continue; }
